@@ -78,6 +78,7 @@ type Exec struct {
 	splitDone   bool
 	splitRange  bool
 	decTerms    [][2]T
+	beTerms     [][3]T
 	suffix      string
 	srcLines    map[string][]string
 	usedWaivers map[*Waiver]bool
@@ -86,6 +87,7 @@ type Exec struct {
 	oldMem      *State // memory snapshot used for old(*p) while evaluating a callee contract
 	cutsDone    map[*CutSpec]bool
 	cutFacts    []int
+	mergeStates []*State
 	limited     bool
 	assertsDone map[*AssertSpec]bool
 	appliesDone map[*ApplySpec]bool
@@ -493,6 +495,14 @@ func newExec(w *World, fn *ssa.Function, c *Contract, split *int) *Exec {
 		return v.(Leaf).T
 	}
 	x.ev.onRS = func(v, e T) { x.rsTerms = append(x.rsTerms, [2]T{v, e}) }
+	x.ev.onBE = func(arr, off, n T) {
+		for _, t := range x.beTerms {
+			if t[0].S == arr.S && t[1].S == off.S && t[2].S == n.S {
+				return
+			}
+		}
+		x.beTerms = append(x.beTerms, [3]T{arr, off, n})
+	}
 	x.ev.prev = func(e Expr, env *Env) Val {
 		var best *loopInfo
 		for _, li := range x.loops {
@@ -760,6 +770,7 @@ func allRel(t T, rel map[string]bool) bool {
 func (x *Exec) attachAxioms(o *Obligation) {
 	rsT := append([][2]T{}, x.rsTerms...)
 	decT := append([][2]T{}, x.decTerms...)
+	beT := append([][3]T{}, x.beTerms...)
 	mode := x.th.Mode()
 	w := x.w
 	o.Levels = 1
@@ -800,6 +811,13 @@ func (x *Exec) attachAxioms(o *Obligation) {
 			eq = wide
 		}
 		out = append(out, rsInstancesK(rs, eq, mono)...)
+		var bes [][3]T
+		for _, t := range beT {
+			if allRel(t[0], rel) && allRel(t[1], rel) && allRel(t[2], rel) {
+				bes = append(bes, t)
+			}
+		}
+		out = append(out, beInstances(bes)...)
 		if mode == "int" {
 			for _, d := range decT {
 				if allRel(d[0], rel) && allRel(d[1], rel) {
@@ -865,6 +883,30 @@ func rsInstancesK(terms [][2]T, eqSteps, monoSteps []int) []string {
 				cs = append(cs, fmt.Sprintf("(=> (and (>= %s 0.0) (>= %s (+ %s %d))) (<= (* %s.0 (rs %s %s)) (rs %s %s)))", a[0].S, b[1].S, a[1].S, k, pow10(k).String(), b[0].S, b[1].S, a[0].S, a[1].S))
 			}
 			out = append(out, "(assert (and "+strings.Join(cs, " ")+"))")
+		}
+	}
+	return out
+}
+
+// beInstances: axioms of be(a, off, n) = sum_{k<n} a[off+k] * 256^(n-1-k) for the terms of an obligation:
+// be(a,o,0) = 0; 0 <= be(a,o,n) < 2^(8n) for 0 <= n <= 32 (bytes are in 0..255);
+// Horner step: n2 = n1 + 1 (same a, o) => be(a,o,n2) = 256 * be(a,o,n1) + a[o+n1];
+// leading zero: o2 = o1 + 1, n2 = n1 - 1, a[o1] = 0 => be(a,o1,n1) = be(a,o2,n2).
+func beInstances(terms [][3]T) []string {
+	var out []string
+	app3 := func(t [3]T) string { return fmt.Sprintf("(be %s %s %s)", t[0].S, t[1].S, t[2].S) }
+	for i, a := range terms {
+		out = append(out, fmt.Sprintf("(assert (and (=> (<= %s 0) (= %s 0)) (=> (and (<= 0 %s) (<= %s 32)) (and (<= 0 %s) (< %s (pow2 (* 8 %s)))))))",
+			a[2].S, app3(a), a[2].S, a[2].S, app3(a), app3(a), a[2].S))
+		for j, b := range terms {
+			if i == j || a[0].S != b[0].S {
+				continue
+			}
+			sel := func(idx string) string { return fmt.Sprintf("(select %s %s)", a[0].S, idx) }
+			out = append(out, fmt.Sprintf("(assert (=> (and (= %s %s) (= %s (+ %s 1)) (>= %s 0)) (and (= %s (+ (* 256 %s) %s)) (<= 0 %s) (<= %s 255))))",
+				a[1].S, b[1].S, b[2].S, a[2].S, a[2].S, app3(b), app3(a), sel(fmt.Sprintf("(+ %s %s)", a[1].S, a[2].S)), sel(fmt.Sprintf("(+ %s %s)", a[1].S, a[2].S)), sel(fmt.Sprintf("(+ %s %s)", a[1].S, a[2].S))))
+			out = append(out, fmt.Sprintf("(assert (=> (and (= %s (+ %s 1)) (= %s (- %s 1)) (>= %s 1) (= %s 0)) (= %s %s)))",
+				b[1].S, a[1].S, b[2].S, a[2].S, a[2].S, sel(a[1].S), app3(a), app3(b)))
 		}
 	}
 	return out
